@@ -42,18 +42,22 @@ C  == <<F, F, T>>
 MCQuick ==
     FamLevels
     \cup FamEmit({C, WC}, Sco2, {2, 3})
-    \cup FamBatch({C, WC}, { NoRst, <<F, F, T>> }, Sco2)
+    \cup FamBatch({C}, { NoRst, <<F, F, T>> }, Sco2)
+    \cup FamBatch({WC}, { NoRst }, Sco2)
 
-MCQuickFlap == FamFlap({C, WC}, Sco2, Flap2, BOOLEAN)
+MCQuickFlap == FamFlap({C, WC}, Sco2, Flap2, {F}) \cup FamFlap({C}, Sco2, Flap2, {T})
 
 MCQuickAll == MCQuick \cup MCQuickFlap
 ASSUME QuickStatic == LevelRuleStatic /\ FlapNoBoundary
 
+ALL == <<T, T, T>>
 MCThorough ==
     FamLevels
-    \cup FamEmit({C, WC, <<T, T, T>>}, Sco3, {2, 3, 4})
-    \cup FamBatch({C, WC, <<T, T, T>>}, { NoRst, <<F, F, T>>, <<F, T, T>> }, Sco3)
+    \cup FamEmit({C, WC, ALL}, Sco3, {2, 3, 4})
+    \cup FamBatch({C, WC}, { NoRst, <<F, F, T>> }, Sco3)
+    \cup FamBatch({ALL}, { NoRst }, { <<F, 0>> })
 
-MCThoroughFlap == FamFlap({C, WC, <<T, T, T>>}, Sco3, Flap3, BOOLEAN)
+MCThoroughFlap ==
+    FamFlap({C, WC, ALL}, Sco3, Flap3, {F}) \cup FamFlap({C, WC}, Sco3, Flap3, {T})
 MCThoroughAll == MCThorough \cup MCThoroughFlap
 =============================================================================
